@@ -36,7 +36,7 @@ structure St where
   x : FCfg := initX 0 [] none
   stepFault : Option (Nat × Nat) := none
   fexc : Exc := faultExc                -- the exception object of the case's fault
-  stepFired : Bool := false
+  twins : Bool := false                 -- a hook fault is armed at the start: the run is the twins' (`runF`), else `runL`
 
 def progOf (s : St) : Prog :=
   match s.stepFault with
@@ -72,7 +72,7 @@ partial def loop (h : IO.FS.Stream) (s : St) : IO Unit := do
       match pHK name, occ.toNat? with
       | some hk, some (n+1) =>
           IO.println "fault hook"
-          loop h { s with x := { s.x with arm := some { hk := hk, left := n, after := var = "after" } } }
+          loop h { s with x := { s.x with arm := some { hk := hk, left := n, after := var = "after" } }, twins := true }
       | _, _ => IO.println "bad-fault"; loop h s
   | ["fault", "step", fn, seg] =>
       match fn.toNat?, seg.toNat? with
@@ -84,7 +84,9 @@ partial def loop (h : IO.FS.Stream) (s : St) : IO Unit := do
     match parseEv toks with
     | none => IO.println "bad-op"; loop h s
     | some ev =>
-      let (x', r) := stepX (progOf s) s.x ev
+      let (x', r) :=
+        if s.twins then stepF (progOf s) s.x ev
+        else ({ s.x with l := (stepL (progOf s) s.x.l ev).1 }, (stepL (progOf s) s.x.l ev).2)
       IO.println (obsX s x' r)
       loop h { s with x := x' }
 
